@@ -510,13 +510,38 @@ pub fn unrolled_depth(net: &Net) -> usize {
     d
 }
 
+thread_local! {
+    /// when set, predict_vs_ref() first TRAINS the network it built (one epoch of learn() on two samples, MSE, SGD with a
+    /// small step), reads the parameters back through the hook and compares predict() with the reference on THOSE
+    /// parameters: whatever a layer cached, copied or left switched on during training shows in the prediction
+    pub static PRETRAIN: std::cell::Cell<bool> = const { std::cell::Cell::new(false) };
+}
+
 pub fn predict_vs_ref_limit(net: &Net, params: &[P<f32>], x: &[f32], tol: f64, limit: f64) -> Result<PredictOk, Mismatch> {
+    let pretrain = PRETRAIN.with(|p| p.get());
+    let tol = if pretrain { tol.max(1e-4) } else { tol };
     // single-precision rounding accumulates with the length of the chain: the relative tolerance is the given one for
     // chains of up to 4 layer applications and grows linearly beyond (a 17-application chain gets 4.25 x)
     let tol = tol * (unrolled_depth(net) as f64 / 4.0).max(1.0);
     let shapes = ref_shapes(net).expect("predict_vs_ref: reference must accept the case");
-    let lib = build_with(net, &shapes, params).map_err(Mismatch::Rejected)?;
+    let mut lib = build_with(net, &shapes, params).map_err(Mismatch::Rejected)?;
     let xt = libnet::tensor(net.input, x);
+    let mut trained: Option<Vec<P<f32>>> = None;
+    if pretrain {
+        let first = crate::util::guard(|| lib.predict(&xt)).map_err(Mismatch::Panics)?;
+        let (d0, v0) = libnet::flat_dims(&first).map_err(Mismatch::Shape)?;
+        let target = libnet::tensor(d0, &vec![0.5; v0.len()]);
+        let xr: Vec<f32> = x.iter().rev().cloned().collect();
+        let xt2 = libnet::tensor(net.input, &xr);
+        lib.set_objective(neurons::objective::Objective::MSE, None);
+        lib.set_optimizer(neurons::optimizer::SGD::create(0.000244140625, None));
+        crate::util::guard(|| {
+            lib.learn(&vec![&xt, &xt2], &vec![&target, &target], None, 1, 1, None);
+        })
+        .map_err(|e| Mismatch::Panics(format!("learn(): {}", e)))?;
+        trained = Some(libnet::get_params(&lib).map_err(Mismatch::Shape)?);
+    }
+    let params: &[P<f32>] = trained.as_deref().unwrap_or(params);
     let out = crate::util::guard(|| lib.predict(&xt)).map_err(Mismatch::Panics)?;
     let (d, v) = libnet::flat_dims(&out).map_err(Mismatch::Shape)?;
     let last = shapes.last().unwrap();
@@ -528,6 +553,9 @@ pub fn predict_vs_ref_limit(net: &Net, params: &[P<f32>], x: &[f32], tol: f64, l
     let tr = crate::refmodel::net::forward(net, &shapes, &p64, &x64, false);
     let want = tr.activated.last().unwrap();
     let floor = trace_max(&tr);
+    // a training step on integer data can send a network off towards 1e20: only trained states of ordinary magnitude
+    // are judged (as in C01); the others are counted with the out-of-range cases
+    let limit = if pretrain { limit.min(1.0e4) } else { limit };
     if floor > limit {
         // repeated multiplication / many repetitions: the exact value is outside what f32 can hold
         return Ok(PredictOk { exact: false, nontrivial: false, lib_out: v, overflow: true });
